@@ -164,7 +164,8 @@ def plan(rng, tier):
                               "weightedIntersection", "isdisjoint"]),
                   rng.randrange(2),
                   rng.choice(["class-raises", "iter-raises", "next-raises",
-                              "items-raises", "len-raises"]),
+                              "items-raises", "len-raises", "py-twin",
+                              "py-twin"]),
                   g.keylist(0, 5), rng.randrange(4)]
         else:
             if rng.random() < 0.3:
@@ -265,7 +266,18 @@ def _hostile(how, ks, after):
 
 def _do_hostile(c, op, dom, kind):
     _, what, pos, how, kidx, after = op
-    h = _hostile(how, [dom.key(k) for k in kidx], after)
+    if how == "py-twin":
+        # a container of the PURE-PYTHON implementation handed to the C
+        # functions: isinstance() says it is an OOSet (the *Py classes
+        # answer __class__ with the C class), its memory layout is not
+        pk = ("Set", "TreeSet", "Bucket", "BTree")[after % 4]
+        ks_ = sorted(set(kidx))
+        if pk in ("Set", "TreeSet"):
+            h = dom.cls(pk, "py")([dom.key(k) for k in ks_])
+        else:
+            h = dom.cls(pk, "py")([(dom.key(k), dom.val(0)) for k in ks_])
+    else:
+        h = _hostile(how, [dom.key(k) for k in kidx], after)
     mod = dom.mod
     a, b = (h, c) if pos == 0 else (c, h)
     if what in ("union", "intersection", "difference"):
